@@ -7,6 +7,8 @@
 package main
 
 import (
+	"github.com/decred/dcrd/dcrec/secp256k1/v4"
+
 	"encoding/hex"
 
 	sdk "github.com/cosmos/cosmos-sdk/types"
@@ -240,7 +242,13 @@ func (c *caseT) complaintOut(cp tsstypes.Complaint) fx.M {
 	enc, err := gr.GetEncryptedSecretShare(cp.Respondent, cp.Complainant)
 	dec := ""
 	if err == nil {
-		if sh, err := tss.DecryptSecretShare(enc, cp.KeySym); err == nil {
+		// the symmetric key is a curve point: the specification decrypts under the point, i.e. under its canonical
+		// (compressed) encoding, whatever encoding the complaint carries
+		ks := cp.KeySym
+		if pk, e := secp256k1.ParsePubKey(ks); e == nil {
+			ks = tss.Point(pk.SerializeCompressed())
+		}
+		if sh, err := tss.DecryptSecretShare(enc, ks); err == nil {
 			dec = hx(sh)
 		}
 	}
@@ -285,7 +293,32 @@ func (c *caseT) round3(m *member) {
 		fx.Must(err)
 		dev := ""
 		foreign := false
-		switch r.Intn(5) {
+		switch r.Intn(6) {
+		case 5: // the TRUE symmetric key in a non-canonical encoding (uncompressed or hybrid SEC1), with a proof that is valid for
+			// exactly those bytes: the same curve point, so both proof relations hold
+			pk, e0 := secp256k1.ParsePubKey(keySym)
+			fx.Must(e0)
+			ku := tss.Point(pk.SerializeUncompressed())
+			if r.Chance(1, 3) {
+				ku[0] = 6 + ku[64]&1 // hybrid form
+			}
+			for {
+				nonce, pubNonce, e1 := tss.GenerateDKGNonce()
+				fx.Must(e1)
+				nonceSym, e2 := tss.ComputeSecretSym(nonce, o.r1.OneTimePubKey)
+				fx.Must(e2)
+				ch, e3 := tss.HashRound3Complain(pubNonce, nonceSym, m.r1.OneTimePubKey, o.r1.OneTimePubKey, ku)
+				if e3 != nil {
+					continue
+				}
+				sg, e4 := tss.Sign(m.r1.OneTimePrivKey, ch, nonce, nil)
+				fx.Must(e4)
+				sig, err = tss.NewComplaintSignatureFromComponents(sg.R(), nonceSym, sg.S())
+				fx.Must(err)
+				break
+			}
+			keySym = ku
+			dev = "noncanonical-keysym"
 		case 4: // a proof made with a key the complainant does not own: it ties the "symmetric key" to the respondent's one-time key
 			// only, not to the complainant's (the second of the two relations holds, the first does not)
 			kp := tss.Scalar(append([]byte{1}, r.Bytes(31)...))
